@@ -196,27 +196,35 @@ impl NetClient {
                 }
             }
         }
-        self.wait_sent();
+        self.wait_sent(w);
         Ok(())
     }
 
-    /// Waits until the bytes written have left this socket's send queue (they are in the peer's
-    /// receive queue then: loopback).
-    fn wait_sent(&self) {
-        if let Some(s) = self.s.as_ref() {
-            let fd = s.as_raw_fd();
-            for _ in 0..1_000_000 {
-                let mut q: libc::c_int = 0;
-                // SIOCOUTQNSD: bytes not yet handed to the device.  (TIOCOUTQ also counts sent but
-                // unacknowledged bytes and would wait out the receiver's 40 ms delayed ACK.)  On loopback
-                // a transmitted segment is in the receiver's queue when the syscall returns.
-                const SIOCOUTQNSD: libc::c_ulong = 0x894B;
-                let r = unsafe { libc::ioctl(fd, SIOCOUTQNSD, &mut q) };
-                if r != 0 || q == 0 {
-                    break;
+    /// Waits until the bytes written have been handed to the device (on loopback they are in the
+    /// peer's receive queue then).  While the peer's window is full the server has to run to drain it.
+    fn wait_sent(&mut self, w: &NetWorld) {
+        for _ in 0..1_000_000 {
+            let q = match self.s.as_ref() {
+                Some(s) => {
+                    let fd = s.as_raw_fd();
+                    let mut q: libc::c_int = 0;
+                    // SIOCOUTQNSD: bytes not yet handed to the device.  (TIOCOUTQ also counts sent but
+                    // unacknowledged bytes and would wait out the receiver's 40 ms delayed ACK.)
+                    const SIOCOUTQNSD: libc::c_ulong = 0x894B;
+                    let r = unsafe { libc::ioctl(fd, SIOCOUTQNSD, &mut q) };
+                    if r != 0 {
+                        0
+                    } else {
+                        q
+                    }
                 }
-                std::thread::yield_now();
+                None => 0,
+            };
+            if q == 0 {
+                break;
             }
+            w.settle();
+            self.pump();
         }
     }
 
